@@ -3,6 +3,9 @@ package main
 // ZUC references (ZUC specification v1.6) and the ZUC step / driver checks of C06 / C07.
 
 import (
+	"go/token"
+	"go/types"
+	"sort"
 	"encoding/json"
 	"fmt"
 	"os"
@@ -101,99 +104,337 @@ func lfsrAgg(it *Interp, name string, n int, field string) (AggV, []BV) {
 	return a, ws
 }
 
+// zucRoles: the ZUC state types and step functions, found by what they are rather than by what
+// they are called: the LFSR is the struct with a [16]uint32 field, the bit-reorganisation output the
+// one with a [4]uint32 field, the FSM the one with a [2]uint32 field; BR is the method of *Br taking
+// the LFSR (by value or by pointer), F the method of *Fsm taking Br and returning a word, and the
+// two LFSR clocks are the methods of *Lfsr (parameters: at most a mode string and a word) whose
+// effect on the cells is the standard's LFSRWithInitialisationMode(u) resp. LFSRWithWorkMode() —
+// one function with a mode parameter, or two functions.
+type zucStep struct {
+	fn      *ssa.Function
+	modeIdx int // index of the mode string among the parameters (receiver = 0), -1 if none
+	uIdx    int // index of the word parameter, -1 if none
+	mode    string
+}
+
+type zucRoles struct {
+	lfsrT, brT, fsmT *types.Named
+	sF, xF, rF       string
+	br, f            *ssa.Function
+	init, work       *zucStep
+	problems         []string
+}
+
+var zucModes = []string{"InitialisationMode", "WorkMode"}
+
+func arrayField(t *types.Named, n int64) string {
+	st, ok := t.Underlying().(*types.Struct)
+	if !ok {
+		return ""
+	}
+	name := ""
+	for i := 0; i < st.NumFields(); i++ {
+		if a, ok := st.Field(i).Type().Underlying().(*types.Array); ok && a.Len() == n {
+			if b, ok := a.Elem().Underlying().(*types.Basic); ok && b.Kind() == types.Uint32 {
+				if name != "" {
+					return ""
+				}
+				name = st.Field(i).Name()
+			}
+		}
+	}
+	return name
+}
+
+func namedOf(t types.Type) *types.Named {
+	if p, ok := t.(*types.Pointer); ok {
+		t = p.Elem()
+	}
+	n, _ := t.(*types.Named)
+	return n
+}
+
+// runZucStep evaluates a clock candidate and compares the cells with the reference.
+func (zr *zucRoles) runStep(c *cryptoCtx, stp *zucStep, initMode bool) (bool, string, *Interp) {
+	it := newCryptoInterp(c.w)
+	st := it.NewState()
+	obj, recv := it.SymbolicObj("L")
+	var s [16]BV
+	st.mem[obj] = map[string]Value{}
+	for i := range s {
+		s[i] = it.SrcBV(fmt.Sprintf("L.%s[%d]", zr.sF, i), 32)
+		s[i].B[31] = it.T.Const(false) // the cells are 31-bit values
+		st.mem[obj][fmt.Sprintf(".%s[%d]", zr.sF, i)] = s[i]
+	}
+	u := it.SrcBV("u", 32)
+	u.B[31] = it.T.Const(false) // u = W >> 1 is a 31-bit value
+	args := make([]Value, len(stp.fn.Params))
+	args[0] = recv
+	if stp.modeIdx >= 0 {
+		args[stp.modeIdx] = StrV{Known: true, S: stp.mode}
+	}
+	if stp.uIdx >= 0 {
+		args[stp.uIdx] = u
+	}
+	it.Call(stp.fn, args, st, 0)
+	var up *BV
+	if initMode {
+		up = &u
+	}
+	v := refZucFeedback(it, s, up)
+	for i := 0; i < 16; i++ {
+		want := v
+		if i < 15 {
+			want = s[i+1]
+		}
+		got := it.load(st, Ptr{Obj: obj, Path: fmt.Sprintf(".%s[%d]", zr.sF, i)}, u32T)
+		if ok, msg := sameBV(it, got, want); !ok {
+			return false, fmt.Sprintf("LFSR cell s%d after the clock: %s", i, msg), it
+		}
+	}
+	return true, "", it
+}
+
+func discoverZuc(c *cryptoCtx) *zucRoles {
+	zr := &zucRoles{}
+	p := c.w.ByRel["security/zuc"]
+	if p == nil {
+		zr.problems = append(zr.problems, "package security/zuc not found")
+		return zr
+	}
+	sc := p.Types.Scope()
+	for _, n := range sc.Names() {
+		tn, ok := sc.Lookup(n).(*types.TypeName)
+		if !ok {
+			continue
+		}
+		nt, ok := tn.Type().(*types.Named)
+		if !ok {
+			continue
+		}
+		if f := arrayField(nt, 16); f != "" && zr.lfsrT == nil {
+			zr.lfsrT, zr.sF = nt, f
+		} else if f := arrayField(nt, 4); f != "" && zr.brT == nil {
+			zr.brT, zr.xF = nt, f
+		} else if f := arrayField(nt, 2); f != "" && zr.fsmT == nil {
+			zr.fsmT, zr.rF = nt, f
+		}
+	}
+	if zr.lfsrT == nil || zr.brT == nil || zr.fsmT == nil {
+		zr.problems = append(zr.problems, "the ZUC state types (structs with a [16]uint32, a [4]uint32 and a [2]uint32 field) are not all present")
+		return zr
+	}
+	methods := func(t *types.Named) []*ssa.Function {
+		var out []*ssa.Function
+		ms := types.NewMethodSet(types.NewPointer(t))
+		for i := 0; i < ms.Len(); i++ {
+			if fn := c.w.Prog.MethodValue(ms.At(i)); fn != nil && fn.Blocks != nil && fn.Synthetic == "" {
+				out = append(out, fn)
+			}
+		}
+		sort.Slice(out, func(i, j int) bool { return out[i].Name() < out[j].Name() })
+		return out
+	}
+	for _, fn := range methods(zr.brT) {
+		if len(fn.Params) == 2 && namedOf(fn.Params[1].Type()) == zr.lfsrT {
+			if zr.br != nil {
+				zr.problems = append(zr.problems, "two methods of *"+zr.brT.Obj().Name()+" take the LFSR")
+			}
+			zr.br = fn
+		}
+	}
+	for _, fn := range methods(zr.fsmT) {
+		if len(fn.Params) == 2 && namedOf(fn.Params[1].Type()) == zr.brT && fn.Signature.Results().Len() == 1 {
+			if zr.f != nil {
+				zr.problems = append(zr.problems, "two methods of *"+zr.fsmT.Obj().Name()+" take the reorganised words")
+			}
+			zr.f = fn
+		}
+	}
+	// clock candidates
+	for _, fn := range methods(zr.lfsrT) {
+		if fn.Signature.Results().Len() != 0 || len(fn.Params) > 3 {
+			continue
+		}
+		stp := zucStep{fn: fn, modeIdx: -1, uIdx: -1}
+		okSig := true
+		for i, pr := range fn.Params[1:] {
+			b, isB := pr.Type().Underlying().(*types.Basic)
+			switch {
+			case isB && b.Kind() == types.String && stp.modeIdx < 0:
+				stp.modeIdx = i + 1
+			case isB && b.Kind() == types.Uint32 && stp.uIdx < 0:
+				stp.uIdx = i + 1
+			default:
+				okSig = false
+			}
+		}
+		if !okSig {
+			continue
+		}
+		modes := []string{""}
+		if stp.modeIdx >= 0 {
+			modes = zucModes
+		}
+		for _, m := range modes {
+			cand := stp
+			cand.mode = m
+			if zr.init == nil && cand.uIdx >= 0 {
+				if ok, _, it := zr.runStep(c, &cand, true); ok && len(it.Unsup) == 0 {
+					cc := cand
+					zr.init = &cc
+					continue
+				}
+			}
+			if zr.work == nil {
+				if ok, _, it := zr.runStep(c, &cand, false); ok && len(it.Unsup) == 0 {
+					cc := cand
+					zr.work = &cc
+				}
+			}
+		}
+	}
+	return zr
+}
+
 func checkZucSteps(c *cryptoCtx) {
 	w := c.w
-	if fn, fname := c.fn("security/zuc", "Br.bitReorganization"); fn != nil {
+	zr := discoverZuc(c)
+	for _, pr := range zr.problems {
+		c.r.Fail("anchor", "security/zuc", pr, token.NoPos, pr, nil)
+	}
+	if zr.lfsrT == nil {
+		return
+	}
+	if fn := zr.br; fn != nil {
+		fname := SSAFuncName(fn)
+		c.r.Fn(fname)
 		c.r.Site("step.zuc")
 		it := newCryptoInterp(w)
 		st := it.NewState()
 		obj, recv := it.SymbolicObj("B")
-		la, ws := lfsrAgg(it, "s", 16, "s")
+		la, ws := lfsrAgg(it, "s", 16, zr.sF)
 		var s [16]BV
 		copy(s[:], ws)
 		for i := range s { // the cells are 31-bit values (invariant checked at the LFSR clock)
 			s[i].B[31] = it.T.Const(false)
-			la.Cells[fmt.Sprintf(".s[%d]", i)] = s[i]
+			la.Cells[fmt.Sprintf(".%s[%d]", zr.sF, i)] = s[i]
 		}
-		it.Call(fn, []Value{recv, la}, st, 0)
+		var arg Value = la
+		if _, isPtr := fn.Params[1].Type().(*types.Pointer); isPtr {
+			lo := it.NewObj("Lin", false)
+			st.mem[lo] = map[string]Value{}
+			for k, v := range la.Cells {
+				st.mem[lo][k] = v
+			}
+			arg = Ptr{Obj: lo}
+		}
+		it.Call(fn, []Value{recv, arg}, st, 0)
 		want := refZucBR(it, s)
 		ok, msg := true, ""
 		for i := 0; ok && i < 4; i++ {
-			got := it.load(st, Ptr{Obj: obj, Path: fmt.Sprintf(".x[%d]", i)}, u32T)
+			got := it.load(st, Ptr{Obj: obj, Path: fmt.Sprintf(".%s[%d]", zr.xF, i)}, u32T)
 			if ok, msg = sameBV(it, got, want[i]); !ok {
 				msg = fmt.Sprintf("bit reorganisation word X%d: %s", i, msg)
 			}
 		}
 		c.verdict("step.zuc", fname, "bitReorganization", fn.Pos(), it, ok, msg)
+	} else {
+		c.r.Site("step.zuc")
+		c.r.Fail("step.zuc", "security/zuc", "bitReorganization", token.NoPos, "no method of *"+zr.brT.Obj().Name()+" takes the LFSR: the bit-reorganisation step cannot be identified", nil)
 	}
-	if fn, fname := c.fn("security/zuc", "Fsm.nonlinF"); fn != nil {
+	if fn := zr.f; fn != nil {
+		fname := SSAFuncName(fn)
+		c.r.Fn(fname)
 		c.r.Site("step.zuc")
 		it := newCryptoInterp(w)
 		st := it.NewState()
 		obj, recv := it.SymbolicObj("F")
-		ba, xs := lfsrAgg(it, "x", 4, "x")
+		ba, xs := lfsrAgg(it, "x", 4, zr.xF)
 		var x [4]BV
 		copy(x[:], xs)
-		r1, r2 := it.SrcBV("F.r[0]", 32), it.SrcBV("F.r[1]", 32)
-		W := it.Call(fn, []Value{recv, ba}, st, 0)
+		r1, r2 := it.SrcBV(fmt.Sprintf("F.%s[0]", zr.rF), 32), it.SrcBV(fmt.Sprintf("F.%s[1]", zr.rF), 32)
+		var arg Value = ba
+		if _, isPtr := fn.Params[1].Type().(*types.Pointer); isPtr {
+			bo := it.NewObj("Bin", false)
+			st.mem[bo] = map[string]Value{}
+			for k, v := range ba.Cells {
+				st.mem[bo][k] = v
+			}
+			arg = Ptr{Obj: bo}
+		}
+		W := it.Call(fn, []Value{recv, arg}, st, 0)
 		wW, w1, w2 := refZucF(it, x, r1, r2)
 		ok, msg := sameBV(it, W, wW)
 		if !ok {
 			msg = "F output W = (X0 xor R1) + R2: " + msg
 		}
 		if ok {
-			if ok, msg = sameBV(it, it.load(st, Ptr{Obj: obj, Path: ".r[0]"}, u32T), w1); !ok {
+			if ok, msg = sameBV(it, it.load(st, Ptr{Obj: obj, Path: fmt.Sprintf(".%s[0]", zr.rF)}, u32T), w1); !ok {
 				msg = "F register R1 = S(L1(W1L || W2H)): " + msg
 			}
 		}
 		if ok {
-			if ok, msg = sameBV(it, it.load(st, Ptr{Obj: obj, Path: ".r[1]"}, u32T), w2); !ok {
+			if ok, msg = sameBV(it, it.load(st, Ptr{Obj: obj, Path: fmt.Sprintf(".%s[1]", zr.rF)}, u32T), w2); !ok {
 				msg = "F register R2 = S(L2(W2L || W1H)): " + msg
 			}
 		}
 		c.verdict("step.zuc", fname, "nonlinF", fn.Pos(), it, ok, msg)
+	} else {
+		c.r.Site("step.zuc")
+		c.r.Fail("step.zuc", "security/zuc", "nonlinF", token.NoPos, "no method of *"+zr.fsmT.Obj().Name()+" takes the reorganised words and returns a word: the nonlinear function F cannot be identified", nil)
 	}
-	if fn, fname := c.fn("security/zuc", "Lfsr.state"); fn != nil {
-		for _, mode := range []string{"InitialisationMode", "WorkMode"} {
-			c.r.Site("step.zuc")
-			it := newCryptoInterp(w)
-			st := it.NewState()
-			obj, recv := it.SymbolicObj("L")
-			var s [16]BV
-			for i := range s {
-				s[i] = it.SrcBV(fmt.Sprintf("L.s[%d]", i), 32)
-			}
-			// the cells are 31-bit values and u = W >> 1 is a 31-bit value
-			for i := range s {
-				s[i].B[31] = it.T.Const(false)
-			}
-			if st.mem[obj] == nil {
-				st.mem[obj] = map[string]Value{}
-			}
-			for i := range s {
-				st.mem[obj][fmt.Sprintf(".s[%d]", i)] = s[i]
-			}
-			u := it.SrcBV("u", 32)
-			u.B[31] = it.T.Const(false)
-			it.Call(fn, []Value{recv, StrV{Known: true, S: mode}, u}, st, 0)
-			var up *BV
-			if mode == "InitialisationMode" {
-				up = &u
-			}
-			v := refZucFeedback(it, s, up)
-			ok, msg := true, ""
-			for i := 0; ok && i < 16; i++ {
-				want := v
-				if i < 15 {
-					want = s[i+1]
+	for _, role := range []struct {
+		name string
+		stp  *zucStep
+		init bool
+	}{{"InitialisationMode", zr.init, true}, {"WorkMode", zr.work, false}} {
+		c.r.Site("step.zuc")
+		if role.stp == nil {
+			// no candidate equals the standard's clock: report against the candidates there are
+			detail := "no method of *" + zr.lfsrT.Obj().Name() + " (parameters: at most a mode string and a word) performs the standard's LFSR clock in " + role.name
+			reported := false
+			ms := types.NewMethodSet(types.NewPointer(zr.lfsrT))
+			for i := 0; i < ms.Len() && !reported; i++ {
+				fn := c.w.Prog.MethodValue(ms.At(i))
+				if fn == nil || fn.Blocks == nil || fn.Signature.Results().Len() != 0 {
+					continue
 				}
-				got := it.load(st, Ptr{Obj: obj, Path: fmt.Sprintf(".s[%d]", i)}, u32T)
-				if ok, msg = sameBV(it, got, want); !ok {
-					msg = fmt.Sprintf("LFSR cell s%d after the %s clock: %s", i, mode, msg)
+				stp := zucStep{fn: fn, modeIdx: -1, uIdx: -1, mode: role.name}
+				okSig := len(fn.Params) <= 3
+				for k, pr := range fn.Params[1:] {
+					b, isB := pr.Type().Underlying().(*types.Basic)
+					switch {
+					case isB && b.Kind() == types.String && stp.modeIdx < 0:
+						stp.modeIdx = k + 1
+					case isB && b.Kind() == types.Uint32 && stp.uIdx < 0:
+						stp.uIdx = k + 1
+					default:
+						okSig = false
+					}
+				}
+				if !okSig || (role.init && stp.uIdx < 0) || (stp.modeIdx < 0 && len(fn.Params) == 3) {
+					continue
+				}
+				if stp.modeIdx < 0 && !role.init && stp.uIdx >= 0 && zr.init != nil && zr.init.fn == fn {
+					continue
+				}
+				ok, msg, it := zr.runStep(c, &stp, role.init)
+				if !ok || len(it.Unsup) > 0 {
+					c.r.Fn(SSAFuncName(fn))
+					c.verdict("step.zuc", SSAFuncName(fn), "state/"+role.name, fn.Pos(), it, ok, msg)
+					reported = true
 				}
 			}
-			c.verdict("step.zuc", fname, "state/"+mode, fn.Pos(), it, ok, msg)
+			if !reported {
+				c.r.Fail("step.zuc", "security/zuc", "state/"+role.name, token.NoPos, detail, nil)
+			}
+			continue
 		}
+		c.r.Fn(SSAFuncName(role.stp.fn))
+		ok, msg, it := zr.runStep(c, role.stp, role.init)
+		c.verdict("step.zuc", SSAFuncName(role.stp.fn), "state/"+role.name, role.stp.fn.Pos(), it, ok, msg)
 	}
 }
 
@@ -202,7 +443,12 @@ func checkZucDriver(c *cryptoCtx, n int) {
 	if fn == nil {
 		return
 	}
+	zr := discoverZuc(c)
 	c.r.Site("drv.zuc")
+	if zr.br == nil || zr.f == nil || zr.init == nil || zr.work == nil {
+		c.r.Fail("drv.zuc", fname, fmt.Sprintf("n=%d", n), fn.Pos(), "the driver cannot be compared with the standard's schedule: not every step function was identified (see step.zuc)", nil)
+		return
+	}
 	it := newCryptoInterp(c.w)
 	st := it.NewState()
 	type zev struct {
@@ -212,8 +458,11 @@ func checkZucDriver(c *cryptoCtx, n int) {
 	}
 	var ev []zev
 	count := 0
-	sP, xP, rP := pathsOf("s", 16), pathsOf("x", 4), pathsOf("r", 2)
-	aggWords := func(v Value, paths []string) []BV {
+	sP, xP, rP := pathsOf(zr.sF, 16), pathsOf(zr.xF, 4), pathsOf(zr.rF, 2)
+	aggWords := func(v Value, paths []string, t types.Type) []BV {
+		if p, isPtr := v.(Ptr); isPtr {
+			v = it.load(st, p, t)
+		}
 		a, ok := v.(AggV)
 		var out []BV
 		for _, p := range paths {
@@ -228,47 +477,59 @@ func checkZucDriver(c *cryptoCtx, n int) {
 		}
 		return out
 	}
-	it.Models["(*"+zucPkg+".Br).bitReorganization"] = func(it *Interp, st *state, call *ssa.CallCommon, args []Value) (Value, bool) {
+	it.Models[zr.br.String()] = func(it *Interp, st *state, call *ssa.CallCommon, args []Value) (Value, bool) {
 		p, ok := args[0].(Ptr)
 		if !ok {
 			return nil, false
 		}
 		count++
-		ev = append(ev, zev{"BR", "", aggWords(args[1], sP)})
+		ev = append(ev, zev{"BR", "", aggWords(args[1], sP, zr.lfsrT)})
 		havocCells(it, st, p.Obj, xP, fmt.Sprintf("e%d", count), 32)
 		return nil, true
 	}
-	it.Models["(*"+zucPkg+".Fsm).nonlinF"] = func(it *Interp, st *state, call *ssa.CallCommon, args []Value) (Value, bool) {
+	it.Models[zr.f.String()] = func(it *Interp, st *state, call *ssa.CallCommon, args []Value) (Value, bool) {
 		p, ok := args[0].(Ptr)
 		if !ok {
 			return nil, false
 		}
 		count++
-		a := aggWords(args[1], xP)
+		a := aggWords(args[1], xP, zr.brT)
 		a = append(a, readCells(it, st, p.Obj, rP, u32T)...)
 		ev = append(ev, zev{"F", "", a})
 		havocCells(it, st, p.Obj, rP, fmt.Sprintf("e%d", count), 32)
 		return it.SrcBV(fmt.Sprintf("e%d.W", count), 32), true
 	}
-	it.Models["(*"+zucPkg+".Lfsr).state"] = func(it *Interp, st *state, call *ssa.CallCommon, args []Value) (Value, bool) {
-		p, ok := args[0].(Ptr)
-		if !ok {
-			return nil, false
+	stepModel := func(stp *zucStep, other *zucStep, roleMode string) func(it *Interp, st *state, call *ssa.CallCommon, args []Value) (Value, bool) {
+		return func(it *Interp, st *state, call *ssa.CallCommon, args []Value) (Value, bool) {
+			p, ok := args[0].(Ptr)
+			if !ok {
+				return nil, false
+			}
+			count++
+			mode := roleMode
+			if stp.modeIdx >= 0 {
+				mode = "?"
+				if s, ok := args[stp.modeIdx].(StrV); ok && s.Known {
+					mode = s.S
+				}
+			}
+			u := it.constBV(0, 32)
+			if stp.uIdx >= 0 {
+				u, _ = args[stp.uIdx].(BV)
+				if u.W == 0 {
+					u = it.topBV(32)
+				}
+			}
+			a := []BV{u}
+			a = append(a, readCells(it, st, p.Obj, sP, u32T)...)
+			ev = append(ev, zev{"LFSR", mode, a})
+			havocCells(it, st, p.Obj, sP, fmt.Sprintf("e%d", count), 32)
+			return nil, true
 		}
-		count++
-		mode := "?"
-		if s, ok := args[1].(StrV); ok && s.Known {
-			mode = s.S
-		}
-		u, _ := args[2].(BV)
-		if u.W == 0 {
-			u = it.topBV(32)
-		}
-		a := []BV{u}
-		a = append(a, readCells(it, st, p.Obj, sP, u32T)...)
-		ev = append(ev, zev{"LFSR", mode, a})
-		havocCells(it, st, p.Obj, sP, fmt.Sprintf("e%d", count), 32)
-		return nil, true
+	}
+	it.Models[zr.init.fn.String()] = stepModel(zr.init, zr.work, "InitialisationMode")
+	if zr.work.fn != zr.init.fn {
+		it.Models[zr.work.fn.String()] = stepModel(zr.work, zr.init, "WorkMode")
 	}
 	key := it.SymbolicBytes(st, "k", 16)
 	iv := it.SymbolicBytes(st, "iv", 16)
@@ -403,7 +664,7 @@ func propC06(w *World, r *Report, tier string) {
 		r.Expect("step.zuc", 4)
 		r.Expect("drv.snow3g", 3)
 		r.Expect("drv.zuc", 3)
-		r.Expect("drv.callers", 14)
+		r.Expect("drv.callers", 10)
 		r.Expect("pure.no-state", 6)
 		r.Expect("iv.nea", 3)
 		r.Expect("out.nea", 29)
